@@ -32,6 +32,8 @@ def run(ctx):
     if R.ok:
         use_rules(r, R)
         rename_rules(r, R)
+        from . import c09
+        c09.source_rules(r, R)
     constructor_rules(r, lib)
     nondet.scan_shared_state(r, lib)
     r.trust("fmt::Display of String reproduces the string verbatim; String::is_empty / != compare contents")
